@@ -26,6 +26,7 @@ import (
 	"net/url"
 	"os"
 	"strings"
+	"sync/atomic"
 	"time"
 
 	"github.com/gorilla/websocket"
@@ -47,6 +48,7 @@ type Case struct {
 	Flags *Flags   `json:"flags,omitempty"`
 	Feats string   `json:"feats,omitempty"` // op cases: the principal's features
 	Hist  []Step   `json:"hist,omitempty"`  // hist cases
+	Big   *BigSpec `json:"big,omitempty"`   // op cases: the document is rendered from this spec
 }
 
 type failure struct {
@@ -215,7 +217,7 @@ func (w *world) serveRecorder(s httpSpec) (o Obs) {
 		req.Header.Set("Content-Type", s.ContentType)
 	}
 	req.Header.Set(featHeader, s.Feats)
-	req = req.WithContext(baseContext(context.Background(), s.Feats))
+	req = req.WithContext(w.baseContext(context.Background(), s.Feats))
 	rec := httptest.NewRecorder()
 	w.api.ServeGraphQL(rec, req)
 	o.Status = rec.Code
@@ -671,8 +673,12 @@ func (h *harness) checkOp(cs Case, verbose bool) opResult {
 		varsAtom = vars.Dump
 	}
 	refs := map[Flags]Obs{}
+	large := len(op.Query) > 1<<18
 	for _, w := range h.worlds {
 		fl := w.flags
+		if cs.Flags != nil && (fl.Feat != cs.Flags.Feat || fl.Cost != cs.Flags.Cost) {
+			continue // restricted to one (features, cost) family: both its plain and its preprocessed API
+		}
 		// the operation run without any transport
 		ref, err := h.evalCore(w, coreCall{hook: fl.Hook, feat: fl.Feat, cost: fl.Cost, feats: cs.Feats, q: op.Query, op: op.OpName, vars: varsAtom, exts: "nil"})
 		if err != nil {
@@ -691,7 +697,7 @@ func (h *harness) checkOp(cs Case, verbose bool) opResult {
 			res.executed = true
 		}
 		if verbose {
-			fmt.Printf("  [%s] transport-free: %s\n", fl, ref.key())
+			fmt.Printf("  [%s] transport-free: %s\n", fl, abbrev(ref.key()))
 		}
 		res.reference = ref.key()
 		for _, c := range carriers {
@@ -702,7 +708,7 @@ func (h *harness) checkOp(cs Case, verbose bool) opResult {
 			o := h.runCarrier(w, c, op, cs.Feats, sp)
 			res.byCarrier[fl.String()+"/"+c] = o.key()
 			if verbose {
-				fmt.Printf("  [%s] %-22s %s\n", fl, c+":", o.key())
+				fmt.Printf("  [%s] %-22s %s\n", fl, c+":", abbrev(o.key()))
 			}
 			h.run.Count("op:carrier:" + c)
 			same := o.key() == ref.key()
@@ -730,10 +736,12 @@ func (h *harness) checkOp(cs Case, verbose bool) opResult {
 			}
 			h.run.Oblige("oracle B: every carrier answers like the transport-free run of the operation (response, resolver log, RequestInfo.Cost) — five-way differential", "oracle", 1, same, "")
 			if !same && res.fail == nil {
-				res.fail = &failure{"property", fmt.Sprintf("[%s] %s answers %s; the same operation run without a transport answers %s (query %q, operationName %q, variables %v)", fl, c, o.key(), ref.key(), op.Query, op.OpName, strPtr(op.Vars))}
+				res.fail = &failure{"property", fmt.Sprintf("[%s] %s answers %s; the same operation run without a transport answers %s (query %q, operationName %q, variables %v)", fl, c, abbrev(o.key()), abbrev(ref.key()), abbrev(op.Query), op.OpName, strPtr(op.Vars))}
 			}
 			// the model's serve_t for this carrier
-			if rep, have := h.ask(h.modelLineForCarrier(c, op, vars, fl)); have {
+			if large {
+				h.run.Count("op:large-document: model line skipped")
+			} else if rep, have := h.ask(h.modelLineForCarrier(c, op, vars, fl)); have {
 				if verbose {
 					fmt.Printf("  [%s] %-22s model: %s\n", fl, c+":", rep)
 				}
@@ -774,7 +782,7 @@ func (h *harness) checkOp(cs Case, verbose bool) opResult {
 		}
 		h.run.Oblige("oracle B: API built through the preprocess (clone) path answers like the API built without it", "oracle", 1, same, "")
 		if !same && res.fail == nil {
-			res.fail = &failure{"property", fmt.Sprintf("clone path differs [%s]: with hook %s; without %s (query %q, operationName %q, variables %v)", plain, a.key(), b.key(), op.Query, op.OpName, strPtr(op.Vars))}
+			res.fail = &failure{"property", fmt.Sprintf("clone path differs [%s]: with hook %s; without %s (query %q, operationName %q, variables %v)", plain, abbrev(a.key()), abbrev(b.key()), abbrev(op.Query), op.OpName, strPtr(op.Vars))}
 		}
 	}
 	return res
@@ -939,8 +947,15 @@ func (h *harness) shrinkOp(cs Case, f *failure) (Case, *failure) {
 func (h *harness) runCase(cs Case, verbose bool) *failure {
 	switch cs.Kind {
 	case "op":
+		if cs.Big != nil {
+			o := cs.Big.render()
+			cs.Op = &o
+		}
 		r := h.checkOp(cs, verbose)
 		key, _ := json.Marshal(cs.Op)
+		if cs.Big != nil {
+			key, _ = json.Marshal(cs.Big)
+		}
 		h.run.Case("op:"+string(key), r.executed && (cs.Op.Vars != nil || cs.Op.OpName != ""))
 		if r.executed {
 			h.run.Count("op:executed-resolvers")
@@ -1068,7 +1083,7 @@ func (h *harness) report(cs Case, f *failure) {
 	if f == nil {
 		return
 	}
-	if cs.Kind == "op" {
+	if cs.Kind == "op" && cs.Big == nil && cs.Op != nil && len(cs.Op.Query) < 1<<16 {
 		cs, f = h.shrinkOp(cs, f)
 	}
 	if cs.Kind == "hist" && f.kind == "property" {
@@ -1091,19 +1106,36 @@ func main() {
 	} else {
 		run.Note("no model driver: correspondence obligations skipped, oracles only")
 	}
-	for _, fl := range allFlags() {
-		w, err := newWorld(fl)
-		if err != nil {
-			// an API that cannot even be built in one configuration (e.g. only through the clone path)
-			kind := "crash"
-			if fl.Hook {
-				kind = "property"
-			}
-			run.Oblige("oracle B: API built through the preprocess (clone) path answers like the API built without it", "oracle", 1, false, err.Error())
-			run.Violate(kind, fmt.Sprintf("apifu.NewAPI fails in configuration [%s]: %v", fl, err), "", false, Case{Kind: "op", Flags: &fl, Op: &Op{Query: "{ __typename }"}})
+	// The plain and the preprocessed API of each (features, cost) family are built from the *same*
+	// definition objects (as an application that serves both would): building one must not disturb
+	// the other. Half of the families build the plain API first, half the preprocessed one.
+	built := map[Flags]*world{}
+	for _, fam := range allFlags() {
+		if fam.Hook {
 			continue
 		}
-		h.worlds = append(h.worlds, w)
+		d := newDefs()
+		order := []bool{false, true}
+		if fam.Cost {
+			order = []bool{true, false}
+		}
+		for _, hook := range order {
+			fl := fam
+			fl.Hook = hook
+			w, err := newWorld(fl, d)
+			if err != nil {
+				// an API that cannot even be built in one configuration (e.g. only through the clone path)
+				run.Oblige("oracle B: API built through the preprocess (clone) path answers like the API built without it", "oracle", 1, false, err.Error())
+				run.Violate("property", fmt.Sprintf("apifu.NewAPI fails in configuration [%s] (definitions shared with the other API of its family): %v", fl, err), "", false, Case{Kind: "op", Flags: &fl, Op: &Op{Query: "{ __typename }"}})
+				continue
+			}
+			built[fl] = w
+		}
+	}
+	for _, fl := range allFlags() {
+		if w := built[fl]; w != nil {
+			h.worlds = append(h.worlds, w)
+		}
 	}
 	if len(h.worlds) == 0 {
 		run.Finish(h.model)
@@ -1269,6 +1301,20 @@ func main() {
 		h.report(cs, h.runCase(cs, false))
 		run.Count("op:hand-written")
 	}
+	for i, b := range bigSpecs(run.Thorough()) {
+		b := b
+		for k := 0; k < b.Families; k++ {
+			fam := allFlags()[((i+k+int(run.Seed))%4)*2]
+			cs := Case{Kind: "op", Seed: uint64(i) + 1, Big: &b.Spec, Flags: &fam, Feats: featChoices[(i+k)%len(featChoices)]}
+			t0 := time.Now()
+			h.report(cs, h.runCase(cs, false))
+			if os.Getenv("C17_DEBUG") != "" {
+				fmt.Printf("BIG %+v fam=%v %.2fs\n", b.Spec, fam, time.Since(t0).Seconds())
+			}
+			run.Count("op:large-document")
+		}
+	}
+	run.Note("large documents done at %.1fs", run.Elapsed().Seconds())
 	for i := 0; i < run.Scale(450, 16000); i++ {
 		r := run.Rand.Fork()
 		spec, op := genOp(r)
@@ -1291,6 +1337,9 @@ func main() {
 		}
 	}
 	run.Note("phase B done at %.1fs", run.Elapsed().Seconds())
+	if n := atomic.LoadInt64(&orphanLogs); n > 0 {
+		run.Violate("correspondence", fmt.Sprintf("%d resolver calls ran with a context that did not come from the request (harness cannot attribute them)", n), "", true, Case{Kind: "op", Op: &Op{Query: "{ __typename }"}})
+	}
 
 	run.Finish(h.model)
 }
